@@ -167,6 +167,11 @@ var osFieldOps = map[string]osFieldOp{
 // state
 
 type osVar struct {
+	// role: the name used in everything the proofs PIN (inputs, outputs, guards, hazards): receiver r,
+	// parameters p0, p1, …, struct fields .f0, .f1, … in declaration order, locals l0, l1, … in order of
+	// declaration (inlined: "Add#1.l3"), opaque ints o0, …; package-level variables, "%n" and "return"
+	// keep their names.  `name` (the Go identifier) appears only in `vars` and in comments.
+	role  string
 	name  string
 	isInt bool
 	id    int
@@ -187,6 +192,7 @@ type osVar struct {
 type osDeferred struct{ e ast.Expr }
 
 type osBind struct {
+	role     string // of a struct binding
 	deferred *osDeferred
 	elem     *osVar // element variable (value or pointer)
 	ptr      bool
@@ -225,6 +231,7 @@ type osCtx struct {
 	globals map[string]*osVar
 	opaque  []*osVar
 	depth   int
+	nLocal  int
 	retVar  *osVar
 	// the statements being translated at the top level (for the single-assignment checks of opnorm.go)
 	scan []ast.Stmt
@@ -255,9 +262,14 @@ func (c *osCtx) newVar(name string, isInt bool) *osVar {
 			return c.newVar(name, isInt)
 		}
 	}
-	v := &osVar{name: name, isInt: isInt, id: -1, declAt: len(c.instrs)}
+	v := &osVar{name: name, role: name, isInt: isInt, id: -1, declAt: len(c.instrs)}
 	c.vars = append(c.vars, v)
 	return v
+}
+
+func (c *osCtx) localRole(prefix string) string {
+	c.nLocal++
+	return fmt.Sprintf("%sl%d", prefix, c.nLocal-1)
 }
 
 func (c *osCtx) temp() *osVar {
@@ -635,7 +647,7 @@ func (c *osCtx) callInto(sc *osScope, call *ast.CallExpr, intDst *osVar) (res *o
 					if err != nil {
 						return nil, false, err
 					}
-					rec = append(rec, b.name)
+					rec = append(rec, b.role)
 				}
 				c.guards = append(c.guards, rec)
 				return nil, false, nil
@@ -783,17 +795,17 @@ func (c *osCtx) declare(sc *osScope, name string, typ ast.Expr, at ast.Node) err
 	switch {
 	case tn == c.p.cfg.elemType:
 		v := c.newVar(sc.prefix+name, false)
-		v.local = true
+		v.local, v.role = true, c.localRole(sc.prefix)
 		sc.m[name] = &osBind{elem: v}
 	case tn == "int":
 		v := c.newVar(sc.prefix+name, true)
-		v.local = true
+		v.local, v.role = true, c.localRole(sc.prefix)
 		sc.m[name] = &osBind{intv: v}
 	case c.p.structs[tn] != nil:
-		b := &osBind{typ: tn, fields: map[string]*osVar{}, name: sc.prefix + name}
-		for _, f := range c.p.structs[tn] {
+		b := &osBind{typ: tn, fields: map[string]*osVar{}, name: sc.prefix + name, role: c.localRole(sc.prefix)}
+		for k, f := range c.p.structs[tn] {
 			v := c.newVar(sc.prefix+name+"."+f, false)
-			v.local = true
+			v.local, v.role = true, fmt.Sprintf("%s.f%d", b.role, k)
 			b.fields[f] = v
 		}
 		sc.m[name] = b
@@ -902,21 +914,22 @@ func (c *osCtx) assign(sc *osScope, x *ast.AssignStmt) error {
 				return c.p.errAt(x, "opaque definition of %s changed: normal form %q (configured %q)", id.Name, got, want)
 			}
 			v := c.newVar(sc.prefix+id.Name, true)
-			v.input, v.written = true, true
+			v.input, v.written, v.role = true, true, fmt.Sprintf("o%d", len(c.opaque))
 			c.opaque = append(c.opaque, v)
-			c.facts = append(c.facts, [2]string{"opaque " + v.name, got})
+			c.facts = append(c.facts, [2]string{"opaque " + v.role, got})
 			sc.m[id.Name] = &osBind{intv: v}
 			return nil
 		}
 		// the right-hand side is evaluated before the new variable comes into scope
-		nVars, nTemp, nInstr := len(c.vars), c.nTemp, len(c.instrs)
+		nVars, nTemp, nInstr, nLocal := len(c.vars), c.nTemp, len(c.instrs), c.nLocal
 		v := c.newVar(sc.prefix+id.Name, true)
+		v.role = c.localRole(sc.prefix)
 		mark := len(c.instrs)
 		if _, err := c.intExpr(sc, rhs, v); err != nil {
 			// not an int expression of the subset: a pure single-assignment temporary is kept for
 			// substitution into opaque expressions only
 			if c.depth == 0 && osCanDefer(c.scan, id.Name, rhs) {
-				c.vars, c.nTemp, c.instrs = c.vars[:nVars], nTemp, c.instrs[:nInstr]
+				c.vars, c.nTemp, c.instrs, c.nLocal = c.vars[:nVars], nTemp, c.instrs[:nInstr], nLocal
 				sc.m[id.Name] = &osBind{deferred: &osDeferred{rhs}}
 				return nil
 			}
@@ -1048,13 +1061,20 @@ func osTranslate(p *osPkg, fc *osFnCfg) (*osResult, error) {
 	sc := &osScope{m: map[string]*osBind{}}
 	var inputs []*osVar
 	var recvBind *osBind
+	nParam := 0
 	addParam := func(name string, typ ast.Expr, isRecv bool) error {
 		tn := osTypeName(typ)
+		role := "r"
+		if !isRecv {
+			role = fmt.Sprintf("p%d", nParam)
+			nParam++
+		}
 		switch {
 		case strings.HasPrefix(tn, "*") && p.structs[tn[1:]] != nil:
-			b := &osBind{typ: tn[1:], ptr: true, fields: map[string]*osVar{}, name: name}
-			for _, f := range p.structs[tn[1:]] {
+			b := &osBind{typ: tn[1:], ptr: true, fields: map[string]*osVar{}, name: name, role: role}
+			for k, f := range p.structs[tn[1:]] {
 				v := c.newVar(name+"."+f, false)
+				v.role = fmt.Sprintf("%s.f%d", role, k)
 				v.input, v.written, v.owner, v.class = true, true, name, tn[1:]+"."+f
 				b.fields[f] = v
 				inputs = append(inputs, v)
@@ -1065,11 +1085,13 @@ func osTranslate(p *osPkg, fc *osFnCfg) (*osResult, error) {
 			}
 		case tn == "*"+p.cfg.elemType || (isRecv && tn == "*Element"):
 			v := c.newVar(name, false)
+			v.role = role
 			v.input, v.written, v.owner, v.class = true, true, name, "Element"
 			sc.m[name] = &osBind{elem: v, ptr: true}
 			inputs = append(inputs, v)
 		case tn == "int":
 			v := c.newVar(name, true)
+			v.role = role
 			v.input, v.written = true, true
 			sc.m[name] = &osBind{intv: v}
 			inputs = append(inputs, v)
@@ -1116,7 +1138,7 @@ func osTranslate(p *osPkg, fc *osFnCfg) (*osResult, error) {
 			if _, ok := ifs.Body.List[len(ifs.Body.List)-1].(*ast.ReturnStmt); !ok {
 				return nil, p.errAt(ifs, "%s: the branch does not end in return", fc.fn)
 			}
-			c.facts = append(c.facts, [2]string{"branch", "if " + p.text(ifs.Cond) + " { …; return }"})
+			c.facts = append(c.facts, [2]string{"branch", "leading if with early return; condition = the [if.cond] sequence"})
 			switch fc.seg {
 			case "if.cond":
 				body = []ast.Stmt{&ast.ReturnStmt{Return: ifs.Cond.Pos(), Results: []ast.Expr{ifs.Cond}}}
@@ -1177,14 +1199,20 @@ func osTranslate(p *osPkg, fc *osFnCfg) (*osResult, error) {
 			if !ok {
 				return nil, p.errAt(loop, "%s: loop start is not a constant", fc.fn)
 			}
-			c.facts = append(c.facts, [2]string{"loop.var", p.text(as.Lhs[0])})
 			c.facts = append(c.facts, [2]string{"loop.start", strconv.FormatInt(iv, 10)})
 			ncond, err := osNorm(loop.Cond, nil, 0)
 			if err != nil {
 				return nil, p.errAt(loop, "%s: loop condition: %v", fc.fn, err)
 			}
 			c.facts = append(c.facts, [2]string{"loop.cond", ncond})
-			c.facts = append(c.facts, [2]string{"loop.post", p.text(loop.Post)})
+			post := ""
+			if pd, ok := loop.Post.(*ast.IncDecStmt); ok && p.text(pd.X) == p.text(as.Lhs[0]) {
+				post = pd.Tok.String()
+			}
+			if post == "" {
+				return nil, p.errAt(loop, "%s: unsupported loop post statement", fc.fn)
+			}
+			c.facts = append(c.facts, [2]string{"loop.post", post})
 		case "finish":
 			lo = forIdx + 1
 			hi = -1
@@ -1198,7 +1226,11 @@ func osTranslate(p *osPkg, fc *osFnCfg) (*osResult, error) {
 				return nil, p.errAt(fd, "%s: no `if` after the loop", fc.fn)
 			}
 			body = fd.Body.List[lo:hi]
-			c.facts = append(c.facts, [2]string{"followed-by", p.text(fd.Body.List[hi].(*ast.IfStmt).Cond)})
+			nf, err := osNorm(fd.Body.List[hi].(*ast.IfStmt).Cond, nil, 0)
+			if err != nil {
+				return nil, p.errAt(fd.Body.List[hi], "%s: %v", fc.fn, err)
+			}
+			c.facts = append(c.facts, [2]string{"followed-by", nf})
 		default:
 			return nil, fmt.Errorf("%s: unknown segment %q", fc.fn, fc.seg)
 		}
@@ -1219,7 +1251,7 @@ func osTranslate(p *osPkg, fc *osFnCfg) (*osResult, error) {
 					}
 					for _, n := range vs.Names {
 						v := c.newVar(n.Name, false)
-						v.input, v.written = true, true
+						v.input, v.written, v.role = true, true, c.localRole("")
 						sc.m[n.Name] = &osBind{elem: v}
 						inputs = append(inputs, v)
 					}
@@ -1229,7 +1261,7 @@ func osTranslate(p *osPkg, fc *osFnCfg) (*osResult, error) {
 					if id, ok := x.Lhs[0].(*ast.Ident); ok {
 						if _, ok := osConstInt(x.Rhs[0]); ok {
 							v := c.newVar(id.Name, true)
-							v.input, v.written = true, true
+							v.input, v.written, v.role = true, true, c.localRole("")
 							sc.m[id.Name] = &osBind{intv: v}
 							inputs = append(inputs, v)
 						}
@@ -1398,7 +1430,7 @@ func osTranslate(p *osPkg, fc *osFnCfg) (*osResult, error) {
 						return
 					}
 					seen[key] = true
-					hazards = append(hazards, fmt.Sprintf("%s of %s at #%d after write of %s at #%d", kind, x.name, j, y.name, i))
+					hazards = append(hazards, fmt.Sprintf("%s of %s at #%d after write of %s at #%d", kind, x.role, j, y.role, i))
 				}
 				for _, x := range c.instrs[j].args {
 					chk(x, "read")
@@ -1441,14 +1473,14 @@ func (r *osResult) emit(b *strings.Builder) {
 	for i, v := range r.vars {
 		names = append(names, v.name)
 		if i < r.nIn {
-			ins = append(ins, v.name)
+			ins = append(ins, v.role)
 		}
 		if v.isInt {
 			ints = append(ints, strconv.Itoa(v.id))
 		}
 	}
 	for _, o := range r.outs {
-		outs = append(outs, o.name)
+		outs = append(outs, o.role)
 	}
 	fmt.Fprintf(b, "/-- %s -/\ndef %s : Fn := {\n", r.doc, r.fc.lean)
 	fmt.Fprintf(b, "  name := %s\n", osQuote(r.doc))
